@@ -144,6 +144,25 @@ def list_dir(path):
     return sorted(out)
 
 
+def dir_sizes(path):
+    """{name: size in bytes} of the regular files of a directory (the harness' own reading of what is
+    really on disk; a dict, iterate it sorted)."""
+    out = {}
+    with os.scandir(path) as it:
+        for e in it:
+            if e.is_file(follow_symlinks=False):
+                out[e.name] = e.stat(follow_symlinks=False).st_size
+    return out
+
+
+def sparse_file(path, size):
+    """A file of `size` bytes without materialising them (stands in for a blob whose bytes never
+    matter: every size the product can observe - stat, BlobFile length check - is the real one)."""
+    with open(path, 'wb') as f:
+        if size > 0:
+            f.truncate(size)
+
+
 def valid_blob_files(path):
     return [n for n in list_dir(path) if VALID_NAME.match(n)]
 
@@ -258,3 +277,17 @@ async def download_stream(loop, blob_manager, storage, sd_hash, remote_blobs, ta
     if with_file:
         await storage.save_downloaded_file(descriptor.stream_hash, None, None, 0.0)
     return descriptor
+
+
+async def save_stream_claim(storage, sd_hash, seq):
+    """What the daemon does after a publish / a download from a claim: the claim naming this stream is
+    stored; `save_claims` itself links it to the stream's `file` row (content_claim).  Only streams
+    with such a claim are listed by `get_all_lbry_files`, i.e. loaded and recovered at start-up."""
+    from lbry.schema.claim import Claim
+    claim = Claim()
+    claim.stream.source.sd_hash = sd_hash
+    await storage.save_claims([{
+        'claim_id': '%040x' % (seq + 1), 'name': f'claim{seq}', 'amount': '1.0',
+        'address': 'bT6wc54qiUUYt34HQF9wnW8b2o2yQTXf2S', 'txid': '%064x' % (seq + 1), 'nout': 0,
+        'value': claim, 'height': -1, 'claim_sequence': -1,
+    }])
